@@ -705,6 +705,8 @@ class EscapeAnalysis:
                 result.extend(self._subscript(current, func))
             elif isinstance(current, ast.Compare):
                 result.extend(self._comparison(current, func))
+            elif isinstance(current, ast.BinOp) and isinstance(current.op, ast.Mod):
+                result.extend(self._formatting_of_evaluated_value(current, func))
             elif isinstance(current, ast.Attribute) and isinstance(current.ctx, ast.Store):
                 for setter in self.graph.property_setters(current.attr):
                     for item in self.summaries.get(setter.qualname, {}).values():
@@ -771,6 +773,21 @@ class EscapeAnalysis:
             if _membership_guarded(func, node):
                 return []
             return [Item("builtins.KeyError", (func.qualname, node.lineno, ast.unparse(node)[:70]))]
+        return []
+
+    def _formatting_of_evaluated_value(self, node, func):
+        """``"... %r" % (..., value)`` where ``value`` is the result of eval() in the same function: what a user-written
+        expression evaluates to is arbitrary - an int of more than 4300 digits cannot be turned into text (ValueError,
+        sys.get_int_max_str_digits), whatever the conversion."""
+        operands = node.right.elts if isinstance(node.right, ast.Tuple) else [node.right]
+        names = {operand.id for operand in operands if isinstance(operand, ast.Name)}
+        if not names:
+            return []
+        for statement in walk_own(func.node):
+            if isinstance(statement, ast.Assign) and isinstance(statement.value, ast.Call) and dotted(statement.value.func) == "eval":
+                for target in statement.targets:
+                    if isinstance(target, ast.Name) and target.id in names:
+                        return [Item("builtins.ValueError", (func.qualname, node.lineno, "formatting the result of eval(): " + ast.unparse(node)[:60]))]
         return []
 
     def _comparison(self, node, func):
